@@ -368,3 +368,27 @@ fn f33_cache_replayed_in_reception_order() {
     assert_eq!(done.as_deref(), Some(&data[..]), "all symbols and the FDT were received, the object must be delivered ({} writer(s), errors: {:?})",
                objs.len(), objs.iter().map(|o| o.borrow().error).collect::<Vec<_>>());
 }
+
+// ---- F34 candidate (C02): in-band FTI, every packet of the object received before the first complete FDT ---------------------------
+#[test]
+fn f34_object_complete_in_memory_before_fdt() {
+    let oti = flute::core::Oti::new_no_code(64, 4);
+    let mut s = sender_with(&oti, &Default::default());
+    let data: Vec<u8> = (0..1000u32).map(|i| (i % 251) as u8).collect();
+    s.add_object(0, obj(data.clone(), "file:///late-fdt-inband", Default::default())).unwrap();
+    let now = SystemTime::now();
+    s.publish(now).unwrap();
+    let pkts = all_packets(&mut s, now);
+    let (fdt, object): (Vec<_>, Vec<_>) = pkts.iter().cloned().partition(|p| is_fdt(p));
+    let (mut r, w) = receiver();
+    for p in &object {
+        r.push(&endpoint(), p, now).unwrap();
+    }
+    for p in &fdt {
+        r.push(&endpoint(), p, now).unwrap();
+    }
+    let objs = w.objects.borrow();
+    let done = objs.iter().find(|o| o.borrow().complete).map(|o| o.borrow().data.clone());
+    assert_eq!(done.as_deref(), Some(&data[..]), "all symbols and the FDT were received ({} writer(s), errors: {:?})",
+               objs.len(), objs.iter().map(|o| o.borrow().error).collect::<Vec<_>>());
+}
